@@ -32,6 +32,9 @@ type doc struct {
 	// policy documents: the phase of NewReader that meets malformed content
 	// ("" for none) and whether the file has version 2.0 with a short /ID
 	bad string
+	// light: only the Get of the listed objects is explored (placement sweeps:
+	// many near-identical documents)
+	light bool
 }
 
 // memSink is an in-memory sink; the seekable variant lets the Writer fill
@@ -559,6 +562,111 @@ func policyDocs() []*doc {
 			name = "policy-clean"
 		}
 		res = append(res, &doc{name: name, class: "policy:" + v.bad, data: append([]byte(nil), t.buf.Bytes()...), refs: R(1, 2, 3, 4, 5), bad: v.bad})
+	}
+	return res
+}
+
+// lookaheadDocs places tokens that the scanner recognises by looking ahead -
+// "n g R" versus an integer, as a member of an object stream, inside an array
+// and as a whole indirect object - so that the look-ahead straddles the
+// scanner's 1024-byte buffer: the refill, and with it a fault, happens between
+// the integer and what decides its meaning.
+func lookaheadDocs() []*doc {
+	var res []*doc
+	R := func(ns ...int) []pdf.Reference {
+		var r []pdf.Reference
+		for _, n := range ns {
+			r = append(r, pdf.NewReference(uint32(n), 0))
+		}
+		return r
+	}
+	step := 1
+	if !e.Thorough {
+		step = 2
+	}
+	// (a) members of an unfiltered object stream: the member "12   0 R" starts at
+	// offset p of the decoded stream, p = 1000 .. 1030; an array with references
+	// and an integer follow it
+	for p := 1000; p <= 1030; p += step {
+		t := newTextDoc("1.5")
+		t.obj(1, "<< /Type /Catalog /Pages 2 0 R >>")
+		t.obj(2, pagesObj)
+		t.obj(12, "(target)")
+		members := []string{"", "12   0 R", "[ 12 0 R 34 5 12 0 R 6 ]", "77", "<< /A 12 0 R /B 12 /C [ 1 2 ] >>"}
+		// the index has fixed width, so the first member's length places the second
+		hdrLen := 0
+		build := func(fill int) (string, string) {
+			members[0] = "(" + strings.Repeat("f", fill) + ")"
+			var hdr, body strings.Builder
+			for i, m := range members {
+				fmt.Fprintf(&hdr, "%d %05d ", 20+i, body.Len())
+				body.WriteString(m + "\n")
+			}
+			return hdr.String(), body.String()
+		}
+		h0, _ := build(0)
+		hdrLen = len(h0)
+		fill := p - hdrLen - 3 // "(" + fill + ")" + "\n"
+		hdr, body := build(fill)
+		if strings.Index(hdr+body, "12   0 R") != p {
+			panic("lookaheadDocs: layout")
+		}
+		t.stream(9, fmt.Sprintf("/Type /ObjStm /N %d /First %d", len(members), len(hdr)), []byte(hdr+body))
+		xpos := t.buf.Len()
+		var xb []byte
+		row := func(tp byte, a, b int) { xb = append(xb, tp, byte(a>>8), byte(a), byte(b)) }
+		for n := 0; n <= 25; n++ {
+			switch {
+			case n == 0:
+				row(0, 0, 255)
+			case n >= 20 && n <= 24:
+				row(2, 9, n-20)
+			case n == 25:
+				row(1, xpos, 0)
+			default:
+				if off, ok := t.offs[n]; ok {
+					row(1, off, 0)
+				} else {
+					row(0, 0, 0)
+				}
+			}
+		}
+		fmt.Fprintf(&t.buf, "25 0 obj\n<< /Type /XRef /Size 26 /W [ 1 2 1 ] /Root 1 0 R /Length %d >>\nstream\n", len(xb))
+		t.buf.Write(xb)
+		fmt.Fprintf(&t.buf, "\nendstream\nendobj\nstartxref\n%d\n%%%%EOF\n", xpos)
+		res = append(res, &doc{name: fmt.Sprintf("lookahead-objstm-%d", p), class: "hand:lookahead-straddles-buffer:objstm-member",
+			data: append([]byte(nil), t.buf.Bytes()...), refs: R(21, 22, 23, 24), light: true})
+	}
+	// (b) top level: arrays "[ (filler) 12   0 R 34 56 ]" and whole objects
+	// "% filler\n12   0 R" whose reference starts p bytes after "N 0 obj"
+	{
+		t := newTextDoc("1.4")
+		t.obj(1, "<< /Type /Catalog /Pages 2 0 R >>")
+		t.obj(2, pagesObj)
+		t.obj(12, "(target)")
+		var nums []int
+		n := 30
+		for p := 990; p <= 1030; p += step {
+			head := fmt.Sprintf("%d 0 obj\n", n)
+			fill := p - len(head) - len("[ () ")
+			t.obj(n, "[ ("+strings.Repeat("a", fill)+") 12   0 R 34 56 12 0 R ]")
+			nums = append(nums, n)
+			n++
+			head = fmt.Sprintf("%d 0 obj\n", n)
+			fill = p - len(head) - len("%\n")
+			t.obj(n, "%"+strings.Repeat("c", fill)+"\n12   0 R")
+			nums = append(nums, n)
+			n++
+			head = fmt.Sprintf("%d 0 obj\n", n)
+			fill = p - len(head) - len("<< /F () /R ")
+			t.obj(n, "<< /F ("+strings.Repeat("d", fill)+") /R 12   0 R /I 12 /J 0 >>")
+			nums = append(nums, n)
+			n++
+		}
+		all := append([]int{1, 2, 12}, nums...)
+		t.xref(n, "/Root 1 0 R", all, true)
+		res = append(res, &doc{name: "lookahead-toplevel", class: "hand:lookahead-straddles-buffer:top-level",
+			data: append([]byte(nil), t.buf.Bytes()...), refs: R(nums...), light: true})
 	}
 	return res
 }
